@@ -596,6 +596,19 @@ class CFG(object):
         return {(canon.ctext(e), p)
                 for e, p in canon._atoms(test, n.kind == "true")}
 
+    def rd_locals(self):
+        """Names bound in the function (parameters and assigned names)."""
+        return {d.name for d in self.rd.defs}
+
+    def branch_atom_asts(self, nid, inline=False):
+        """[(ast, polarity)] canonical atoms asserted by a branch node."""
+        from . import canon
+        n = self.nodes[nid]
+        if n.kind not in ("true", "false"):
+            return []
+        test = self.ctest(nid) if inline else n.ast
+        return canon._atoms(test, n.kind == "true")
+
     def guard_texts(self, nid, inline=False):
         from . import canon
         return {(canon.ctext(e), p) for e, p, _ in self.guards(nid, inline)}
